@@ -202,7 +202,7 @@ def run_special(kind, pid, tier, seed, eng, workdir, log, build):
             notes.append("tsan build failed")
             return results, notes
         binp = os.path.join(tdir, "x86_64-unknown-linux-gnu", "verif", eng["bin"])
-        env["TSAN_OPTIONS"] = "halt_on_error=1 exitcode=66 report_signal_unsafe=0 second_deadlock_stack=1 history_size=4"
+        env["TSAN_OPTIONS"] = "halt_on_error=1 exitcode=66 report_signal_unsafe=0 report_thread_leaks=0 second_deadlock_stack=1 history_size=4"
 
         def launch(i, b):
             out = os.path.join(workdir, f"tsan-{eng['bin']}-{i}.json")
